@@ -198,21 +198,29 @@ def shutdown (s : State) (kill_workers : Bool) : State :=
 
 /-! ### The manager thread -/
 
-/-- `add_call_item_to_queue`. Recursion on the content of `work_ids`. -/
+/-- One successful iteration of `add_call_item_to_queue`: `work_id` taken from `work_ids`, the future set
+running (`set_running_or_notify_cancel()`; no cancellation: always True), `running_work_items += [work_id]`,
+`call_queue.put(_CallItem(work_id, …))`. -/
+def enqueue (s : State) (wid : Nat) (rest : List Nat) (r : FutRec) : State :=
+  { s with work_ids := rest,
+           futures := setFut s.futures wid .running,
+           running_work_items := s.running_work_items ++ [wid],
+           call_queue := s.call_queue ++ [⟨wid, r.arg⟩] }
+
+/-- The manager thread dies of an uncaught exception (`work_ids` already popped). -/
+def crash (s : State) (rest : List Nat) : State := { s with work_ids := rest, mgr := .crashed }
+
+/-- `add_call_item_to_queue`. Recursion on the content of `work_ids` (the first argument is `s.work_ids`;
+every iteration pops it with `work_ids.get(block=False)`). -/
 def addCallItemsLoop : List Nat → State → State
-  | [], s => { s with work_ids := [] }
+  | [], s => s                                             -- `queue.Empty`
   | wid :: rest, s =>
-    if s.call_queue.length ≥ s.queue_size then { s with work_ids := wid :: rest }   -- `call_queue.full()`
+    if s.call_queue.length ≥ s.queue_size then s           -- `call_queue.full()`
     else if wid ∈ s.pending_work_items then
       match s.futures[wid]? with
-      | some r =>
-        -- `set_running_or_notify_cancel()` (no cancellation: always True)
-        addCallItemsLoop rest
-          { s with futures := setFut s.futures wid .running,
-                   running_work_items := s.running_work_items ++ [wid],
-                   call_queue := s.call_queue ++ [⟨wid, r.arg⟩] }
-      | none => { s with work_ids := rest, mgr := .crashed }
-    else { s with work_ids := rest, mgr := .crashed }      -- `KeyError` on `pending_work_items[work_id]`
+      | some r => addCallItemsLoop rest (enqueue s wid rest r)
+      | none => crash s rest
+    else crash s rest                                      -- `KeyError` on `pending_work_items[work_id]`
 
 def addCallItems (s : State) : State := addCallItemsLoop s.work_ids s
 
@@ -242,36 +250,46 @@ def joinExecutorInternals (s : State) : State :=
 def failAll (fs : List FutRec) (wids : List Nat) (e : Exc) : List FutRec :=
   wids.foldl (fun fs wid => setFut fs wid (.exception e)) fs
 
+/-- Every pending work item's future gets the exception `e`; `pending_work_items.clear()`. -/
+def failPending (s : State) (e : Exc) : State :=
+  { s with futures := failAll s.futures s.pending_work_items e, pending_work_items := [] }
+
+/-- `flag_as_broken(bpe)`. -/
+def flagAsBroken (s : State) (bpe : Exc) : State :=
+  { s with flags := { s.flags with shutdown := true, broken := some bpe } }
+
 /-- `terminate_broken(bpe)`. -/
 def terminateBroken (s : State) (bpe : Exc) : State :=
-  let s1 := { s with flags := { s.flags with shutdown := true, broken := some bpe } }   -- `flag_as_broken`
-  let s2 := { s1 with futures := failAll s1.futures s1.pending_work_items bpe, pending_work_items := [] }
-  joinExecutorInternals (killWorkers s2)
+  joinExecutorInternals (killWorkers (failPending (flagAsBroken s bpe) bpe))
+
+/-- The `_ResultItem` branch of `process_result_item` for a work id found in `pending_work_items`:
+`pop`, `set_result`/`set_exception`, `running_work_items.remove`. -/
+def complete (s : State) (wid : Nat) (st : Fut) : State :=
+  { s with pending_work_items := s.pending_work_items.filter (· != wid),
+           futures := setFut s.futures wid st,
+           running_work_items := s.running_work_items.erase wid }
+
+/-- The `int` branch of `process_result_item`: a worker announced its clean exit. -/
+def reapWorker (s : State) (p : Nat) : State :=
+  let s1 := { s with processes := s.processes.filter (fun w => w.pid != p) }   -- `processes.pop(pid, None)`; join
+  let n_pending := s1.pending_work_items.length
+  let n_running := s1.running_work_items.length
+  if (n_pending > n_running || n_running > s1.processes.length)
+      && decide (s1.processes.length < s1.max_workers) then
+    adjustProcessCount s1
+  else s1
 
 /-- `process_result_item`. -/
 def processResultItem (s : State) : Msg → State
-  | .pid p =>
-    let s1 := { s with processes := s.processes.filter (fun w => w.pid != p) }   -- `processes.pop(pid, None)`; join
-    let n_pending := s1.pending_work_items.length
-    let n_running := s1.running_work_items.length
-    if (n_pending > n_running || n_running > s1.processes.length)
-        && decide (s1.processes.length < s1.max_workers) then
-      adjustProcessCount s1
-    else s1
+  | .pid p => reapWorker s p
   | .result wid v =>
     if wid ∈ s.pending_work_items then
-      if wid ∈ s.running_work_items then
-        { s with pending_work_items := s.pending_work_items.filter (· != wid),
-                 futures := setFut s.futures wid (.result v),
-                 running_work_items := s.running_work_items.erase wid }
+      if wid ∈ s.running_work_items then complete s wid (.result v)
       else { s with mgr := .crashed }        -- `ValueError` of `running_work_items.remove`
     else s                                   -- "work_item can be None if another process terminated"
   | .taskExc wid =>
     if wid ∈ s.pending_work_items then
-      if wid ∈ s.running_work_items then
-        { s with pending_work_items := s.pending_work_items.filter (· != wid),
-                 futures := setFut s.futures wid (.exception .taskError),
-                 running_work_items := s.running_work_items.erase wid }
+      if wid ∈ s.running_work_items then complete s wid (.exception .taskError)
       else { s with mgr := .crashed }
     else s
   | .remoteTb => s      -- never passed here (`is_broken`)
@@ -283,10 +301,7 @@ def isShuttingDown (s : State) : Bool := s.flags.shutdown && s.flags.broken.isNo
 /-- `flag_executor_shutting_down`. -/
 def flagExecutorShuttingDown (s : State) : State :=
   let s1 := { s with flags := { s.flags with shutdown := true } }
-  if s1.flags.kill_workers then
-    killWorkers { s1 with futures := failAll s1.futures s1.pending_work_items .shutdownExecutor,
-                          pending_work_items := [] }
-  else s1
+  if s1.flags.kill_workers then killWorkers (failPending s1 .shutdownExecutor) else s1
 
 /-- How one iteration of the manager's loop ended. -/
 inductive StepResult where
@@ -307,6 +322,10 @@ def finishIteration (s : State) : State × StepResult :=
     if s1.pending_work_items.isEmpty then (joinExecutorInternals s1, .exited) else (s1, .progressed)
   else (s, .progressed)
 
+/-- The head message was received (or, with `rest = []` on an empty pipe, nothing was): the pipe keeps `rest`;
+`thread_wakeup.clear()`. -/
+def received (s : State) (rest : List Msg) : State := { s with result_pipe := rest, wakeups := 0 }
+
 /-- One iteration of `_ExecutorManagerThread.run`:
 `add_call_item_to_queue(); wait_result_broken_or_wakeup(); terminate_broken | process_result_item; shutting down?` -/
 def managerStep (s : State) : State × StepResult :=
@@ -319,7 +338,7 @@ def managerStep (s : State) : State × StepResult :=
       match s1.result_pipe, s1.partialMsg with
       | m :: rest, _ =>
         -- `result_item = result_reader.recv()`; `thread_wakeup.clear()`
-        let s2 := { s1 with result_pipe := rest, wakeups := 0 }
+        let s2 := received s1 rest
         match m with
         | .remoteTb => (terminateBroken s2 .brokenPool, .exited)
         | .unpicklable => (terminateBroken s2 .brokenPool, .exited)
@@ -328,7 +347,7 @@ def managerStep (s : State) : State × StepResult :=
         -- the result reader is readable, but `recv()` needs the whole message
         if writerAlive s1 w then (s1, .blockedInRecv w) else (s1, .stuckInRecv w)
       | [], none =>
-        if s1.wakeups > 0 then finishIteration { s1 with wakeups := 0 }
+        if s1.wakeups > 0 then finishIteration (received s1 [])
         else if (deadPids s1.processes).isEmpty then (s1, .blockedInWait)
         else (terminateBroken s1 .terminatedWorker, .exited)
 
@@ -479,6 +498,25 @@ def getReusableExecutor (p : Pool) (max_workers queue_size : Nat) (reuse kill_wo
         (p', id, false)
       else
         ({ p with execs := p.execs.set i (resize e max_workers) }, i, true)
+
+/-- A history of the module: events of any executor ever created and calls of `get_reusable_executor`. -/
+inductive PoolOp where
+  | exec (i : Nat) (e : Event)
+  | get (max_workers queue_size : Nat) (reuse kill_workers : Bool)
+deriving DecidableEq, Repr
+
+/-- One operation; the second component accumulates the ids handed out by `get_reusable_executor` (latest first). -/
+def poolStep (fn : Nat → Nat) (pr : Pool × List Nat) : PoolOp → Pool × List Nat
+  | .exec i e =>
+    match pr.1.execs[i]? with
+    | some x => ({ pr.1 with execs := pr.1.execs.set i (step fn x e) }, pr.2)
+    | none => pr
+  | .get mw qs reuse kw =>
+    let (p', id, _) := getReusableExecutor pr.1 mw qs reuse kw
+    (p', id :: pr.2)
+
+def poolRun (fn : Nat → Nat) (pr : Pool × List Nat) (ops : List PoolOp) : Pool × List Nat :=
+  ops.foldl (poolStep fn) pr
 
 /-- `LokyBackend` as far as C10 needs it. -/
 structure Backend where
